@@ -69,6 +69,18 @@ def run(res):
             judge_ledger(res, "lp=%d program %s" % (lp, calls), rr["events"], rr["rc"] if rr["rc"] in (0,) else (0 if ledger_of(rr["events"]) else rr["rc"]),
                          rr["log"], {"lp": lp, "what": "midstream" if inflight else "api_program"})
     res.add("traces_validated_against_impl", len(sel) * len(lps))
+    # (a') the decoder's protocol (DecApi.tla): every program torn down wherever it stops, 1 and 3 decoder threads
+    rd, dnodes, dedges = apigraph.load_graph("DecApi", "DecApi.cfg")
+    res.tlc_stats(rd)
+    dprogs = [p for p in apigraph.programs(dnodes, dedges) if p[-1][2] != "NullCall"]
+    for threads in (1, 3):
+        for rr in apirun.run_programs(dprogs, lp=threads, dec=True):
+            calls = [c for c, a, act, b in rr["prog"]]
+            res.case("dec threads=%d %s" % (threads, json.dumps(calls)))
+            judge_ledger(res, "decoder threads=%d program %s" % (threads, calls), rr["events"],
+                         rr["rc"] if rr["rc"] in (0,) else (0 if ledger_of(rr["events"]) else rr["rc"]), rr["log"],
+                         {"threads": threads, "what": "dec_api_program"})
+        res.add("traces_validated_against_impl", len(dprogs))
     # (b) mid-stream teardown of real encodes
     exe = common.enc_record_exe(alloc=True)
     tdir = vlib.tmpdir()
